@@ -40,6 +40,7 @@ func genC10(seed uint64, idx int, tier string) *Scenario {
 	}
 	udpMaxReqV = 1 << 30
 	v6 := r.Chance(0.25)
+	var mixedIPs []string
 	for i := 0; i < nip; i++ {
 		ip := fmt.Sprintf("203.0.113.%d", 10+i)
 		if v6 {
@@ -59,6 +60,29 @@ func genC10(seed uint64, idx int, tier string) *Scenario {
 		for k := range acts {
 			acts[k] = Actor{Kind: "udp", Name: ip, Src: net.JoinHostPort(ip, fmt.Sprint(20000+100*i+k)), Dst: fmt.Sprintf("%s:%d", sensorIP, p.Port), Svc: pn}
 		}
+		// (per source: a source whose datagrams do not all draw a response gets a number of responses that depends on
+		// the order in which its own datagrams' handlers reach the limiter - the solo comparison below is for the others)
+		mixed := r.Chance(0.3)
+		if mixed {
+			mixedIPs = append(mixedIPs, ip)
+		}
+		for ci := range cmds {
+			// "with whatever contents": half of such a source's datagrams are not what the grammar would say - a valid
+			// counterstrike header with an arbitrary query byte (single- or split-packet form), the original cut short,
+			// or random bytes
+			if mixed && r.Chance(0.5) {
+				switch {
+				case pn == "counterstrike" && r.Chance(0.7):
+					d := []byte{0xff, 0xff, 0xff, byte(0xfe + r.Intn(2)), byte(r.Intn(256))}
+					cmds[ci].Data = append(d, r.Bytes(r.Range(0, 20))...)
+				case r.Chance(0.5) && len(cmds[ci].Data) > 1:
+					cmds[ci].Data = cmds[ci].Data[:r.Range(1, len(cmds[ci].Data)-1)]
+				default:
+					cmds[ci].Data = r.Bytes(r.Range(1, 200))
+				}
+				cmds[ci].Note = "other-contents"
+			}
+		}
 		for _, c := range cmds {
 			k := r.Intn(ports)
 			acts[k].Ops = append(acts[k].Ops, SendOp(c.Data, nil, c.Note))
@@ -72,6 +96,7 @@ func genC10(seed uint64, idx int, tier string) *Scenario {
 			}
 		}
 	}
+	sc.Params["mixed_ips"] = strings.Join(mixedIPs, ",")
 	sc.Class = fmt.Sprintf("%s ips=%d", pn, nip)
 	sc.Schedule = r.Schedule(300)
 	if flood {
@@ -181,9 +206,15 @@ func runC10(t *testing.T, sc *Scenario) Result {
 	if len(ips) > 1 {
 		var list []string
 		for ip := range ips {
-			list = append(list, ip)
+			// (sources with datagrams that draw no response are not comparable: see the generator)
+			if !strings.Contains(","+sc.ParamStr("mixed_ips", "")+",", ","+ip+",") {
+				list = append(list, ip)
+			}
 		}
 		sort.Strings(list)
+		if len(list) == 0 {
+			return res
+		}
 		keep := list[int(sc.Seed%uint64(len(list)))]
 		solo := sc.Clone()
 		solo.Actors = nil
